@@ -96,6 +96,20 @@ Definition owed_market (h : Z) (s : State) : Z :=
     else 0).
 Definition mon_market_solvent (h : Z) (s : State) : bool := owed_market h s <=? dec_of_int (balance s (macc MARKET)).
 
+(* C04 conservation at the market escrow: what it holds beyond what it owes is only (a) the
+   price of replicas of deposited orders that are still waiting for a provider and (b)
+   rounding dust of less than one coin per shard settlement. Money left there that no
+   record can ever release is an orphan. *)
+Definition waiting_share (s : State) : Z :=
+  sumz (zitems (orders s)) (fun kv => let o := kv.2 in
+    if (o_status o =? OrderCompleted) && negb (o_op o =? 3) then
+      sumz (omap (fun id => shards s !! id) (o_shards o)) (fun sh =>
+        if (sh_status sh =? ShardWaiting) || (sh_status sh =? ShardTimeout) || (sh_status sh =? ShardMigrating)
+        then dec_mul_int (dec_mul_int (o_price o) (sh_size sh)) (o_duration o) else 0)
+    else 0).
+Definition market_surplus (h : Z) (s : State) : Z :=
+  dec_of_int (balance s (macc MARKET)) - owed_market h s - waiting_share s.
+
 (** C08 / bank *)
 Definition mon_reward_counter (s0_supply s0_reward : Z) (s : State) : bool :=
   match pool s with Some po => po_reward po - s0_reward =? supply s - s0_supply | None => true end.
@@ -120,11 +134,12 @@ Definition mon_super_ok (s : State) : bool :=
 Definition mon_no_residue (s : State) : bool := pg s =? 0.
 
 (** C12: an order handed to providers and not fully stored has a pending check *)
-Definition mon_timeout_scheduled (s : State) : bool :=
+Definition mon_timeout_scheduled (h : Z) (s : State) : bool :=
   all_z (orders s) (fun oid o =>
     if (o_status o =? OrderDataReady) then
-      existsb (fun kv => inZ oid kv.2) (zitems (timeouts s))
+      existsb (fun kv => (h <? kv.1) && inZ oid kv.2) (zitems (timeouts s))
     else true).
+Definition mon_timeouts_future (h : Z) (s : State) : bool := all_z (timeouts s) (fun k _ => h <? k).
 
 Definition app_monitors (boundary : bool) (h : Z) (s : State) : list (string * bool) :=
   [ ("ref.order_shards_exist", mon_order_shards_exist s);
@@ -135,7 +150,9 @@ Definition app_monitors (boundary : bool) (h : Z) (s : State) : list (string * b
     ("sched.expdata_live", mon_expdata_live s);
     ("sched.meta_covers_shards", mon_meta_covers_shards s);
     ("sched.future", negb boundary || mon_schedules_future h s);
-    ("sched.timeout_scheduled", negb boundary || mon_timeout_scheduled s);
+    ("sched.timeout_scheduled", negb boundary || mon_timeout_scheduled h s);
+    ("sched.timeouts_future", negb boundary || mon_timeouts_future h s);
+    ("cons.market_no_orphan", negb boundary || (market_surplus h s <? dec_of_int (Z.of_nat (S (length (zitems (shards s))) + length (zitems (orders s)))%nat * 4 + 8)));
     ("agg.used_is_sum", mon_used_is_sum s);
     ("agg.used_bounds", mon_used_bounds s);
     ("agg.shpledged_is_sum", mon_shpledged_is_sum s);
